@@ -372,6 +372,8 @@ def main(tier, seed):
         rep.violation('corr:uneval', 'correspondence corr.C07 could not be evaluated for %d cases' % bad, dict(kind='correspondence', name='corr.C07', log=logs[:3]), no_input=True)
     import r9
     r9.c07_dot_mixed_dtypes(rep, algopy, rng, tier)
+    import r10
+    r10.c07_gapped_matrix(rep, algopy, rng, tier)
     return rep.finish()
 
 
